@@ -38,6 +38,17 @@ func VerifC11_NflogCrash() {
 	vfAssert("snapshot-ok", err == nil)
 	vfFSPut("data/nflog", buf.Bytes())
 
+	// long ago a run with a bigger log was killed after it had written and synced its
+	// temporary snapshot file and before renaming it: the leftover is still around
+	big, _ := hNew11("")
+	for _, g := range []string{"w", "x", "y", "z"} {
+		vfAssert("log-ok", big.Log(hRecv11(0), g, []uint64{9}, nil, nil, 0) == nil)
+	}
+	if rf, err := openReplace("data/nflog"); err == nil {
+		big.Snapshot(rf)
+		rf.File.Sync()
+	}
+
 	// 1 (quick) / 2 (thorough) rounds of: run, log a notification for a new group
 	// (optionally update the first group's entry), snapshot killed anywhere, restart
 	nOld := 1
